@@ -226,6 +226,15 @@ def stepO (s : State) : Op → State × Out
 def step (s : State) (o : Op) : State := (stepO s o).1
 def out (s : State) (o : Op) : Out := (stepO s o).2
 
+/-- `Config.applyDefaults` (lib/persistedretry/config.go) on the fields the model has: a field the user
+left unset is 0; worker counts default to 4 / 2, channel sizes to 1000 unless the `Testing` flag is set -/
+def applyDefaults (raw : Config) (testing : Bool) : Config :=
+  { raw with
+    nIn := if raw.nIn = 0 then 4 else raw.nIn,
+    nRe := if raw.nRe = 0 then 2 else raw.nRe,
+    capIn := if !testing && raw.capIn = 0 then 1000 else raw.capIn,
+    capRe := if !testing && raw.capRe = 0 then 1000 else raw.capRe }
+
 def init (cfg : Config) : State := { cfg := cfg }
 
 /-! ### views used by the specifications -/
